@@ -16,6 +16,8 @@ pub fn unescape(v: &mut Vec<u8>) {
     let mut found = 0;
 
     while r < v.len() {
+        #[cfg(comrak_verif)]
+        crate::verif::step();
         if v[r] == b'\\' && r + 1 < v.len() && ispunct(v[r + 1]) {
             if v[r + 1] == b'\\' {
                 r += 1;
@@ -63,6 +65,8 @@ pub fn normalize_code(v: &[u8]) -> Vec<u8> {
     let mut contains_nonspace = false;
 
     while i < v.len() {
+        #[cfg(comrak_verif)]
+        crate::verif::step();
         match v[i] {
             b'\r' => {
                 if i + 1 == v.len() || v[i + 1] != b'\n' {
@@ -93,6 +97,8 @@ pub fn remove_trailing_blank_lines(line: &mut String) {
     let line_bytes = line.as_bytes();
     let mut i = line.len() - 1;
     loop {
+        #[cfg(comrak_verif)]
+        crate::verif::step();
         let c = line_bytes[i];
 
         if c != b' ' && c != b'\t' && !is_line_end_char(c) {
@@ -108,6 +114,8 @@ pub fn remove_trailing_blank_lines(line: &mut String) {
     }
 
     for (i, c) in line_bytes.iter().enumerate().take(line.len()).skip(i) {
+        #[cfg(comrak_verif)]
+        crate::verif::step();
         if !is_line_end_char(*c) {
             continue;
         }
@@ -132,6 +140,8 @@ pub fn chop_trailing_hashtags(line: &mut Vec<u8>) {
     let mut n = orig_n;
 
     while line[n] == b'#' {
+        #[cfg(comrak_verif)]
+        crate::verif::step();
         if n == 0 {
             return;
         }
@@ -166,6 +176,8 @@ pub fn trim(line: &mut Vec<u8>) {
 
 pub fn ltrim_slice(mut i: &[u8]) -> &[u8] {
     while let [first, rest @ ..] = i {
+        #[cfg(comrak_verif)]
+        crate::verif::step();
         if isspace(*first) {
             i = rest;
         } else {
@@ -177,6 +189,8 @@ pub fn ltrim_slice(mut i: &[u8]) -> &[u8] {
 
 pub fn rtrim_slice(mut i: &[u8]) -> &[u8] {
     while let [rest @ .., last] = i {
+        #[cfg(comrak_verif)]
+        crate::verif::step();
         if isspace(*last) {
             i = rest;
         } else {
@@ -243,6 +257,8 @@ pub fn clean_title(title: &[u8]) -> Vec<u8> {
 
 pub fn is_blank(s: &[u8]) -> bool {
     for &c in s {
+        #[cfg(comrak_verif)]
+        crate::verif::step();
         match c {
             10 | 13 => return true,
             32 | 9 => (),
@@ -260,6 +276,8 @@ pub fn normalize_label(i: &str, casing: Case) -> String {
     let mut v = String::with_capacity(i.len());
     let mut last_was_whitespace = false;
     for c in i.chars() {
+        #[cfg(comrak_verif)]
+        crate::verif::step();
         if c.is_whitespace() {
             if !last_was_whitespace {
                 last_was_whitespace = true;
